@@ -1,7 +1,7 @@
 """C03 - symbol tables enumerate exactly; name and hash lookups are complete and sound."""
 from symx.api import H
 from spec import enc
-from harness.elfkit import stream_length
+from harness.elfkit import stream_length, elf_object
 from spec import elf_layout as L
 from spec import registry as REG
 
@@ -18,16 +18,8 @@ OUTSIDE = ['tables with more than 3 hashed symbols / 3 buckets', 'names longer t
 ENVS = [(32, True), (32, False), (64, True), (64, False)]
 
 
-class _Elf:
-    def __init__(self, ctx, stream, cls, little, machine='EM_X86_64'):
-        S = ctx.lib('elf.structs')
-        self.stream = stream
-        self.stream_len = stream_length(stream)
-        self.elfclass = cls
-        self.little_endian = little
-        self.structs = S.ELFStructs(little_endian=little, elfclass=cls)
-        self.structs.create_basic_structs()
-        self.structs.create_advanced_structs('ET_DYN', machine, 'ELFOSABI_SYSV')
+def _Elf(ctx, stream, cls, little, machine='EM_X86_64'):
+    return elf_object(ctx, stream, cls, little, machine, 'ET_DYN')
 
 
 def _shdr(**kw):
@@ -168,6 +160,41 @@ def h_text(ctx):
         r = symtab.get_symbol_by_name(q)
         ctx.check_eq('text/by-name/' + q.encode('unicode_escape').decode(), None if r is None else [x['st_value'] for x in r], [0x10 + i for i, n in enumerate(names) if n == q])
     ctx.check('text/by-name/absent', symtab.get_symbol_by_name('gr\u00fc') is None)
+
+
+def h_two_tables(ctx):
+    """two symbol tables of one file whose sections bear the SAME name (section names need not be unique; in a file with stripped
+    section names all are ''): each table answers name lookups from its own symbols, whatever was asked of the other before"""
+    cfg = ctx.cfg
+    cls, little = cfg['elfclass'], cfg['little']
+    SEC = ctx.lib('elf.sections')
+    tab = [0, 0x61, 0, 0x62, 0]                     # 1:'a' 3:'b'
+    symsz = L.sizeof('SYM', cls)
+    image = list(tab)
+    arrays = ([0, 1], [0, 3, 1])                    # name offsets of table 1 and table 2
+    offs = []
+    for arr in arrays:
+        offs.append(len(image))
+        for i, no in enumerate(arr):
+            image += L.encode('SYM', cls, little, dict(st_name=no, st_value=0x10 * len(offs) + i, st_size=0, st_info=0x12, st_other=0, st_shndx=1))
+    elf = _Elf(ctx, ctx.stream(image), cls, little)
+    strtab = SEC.StringTableSection(_shdr(sh_type='SHT_STRTAB', sh_offset=0, sh_size=len(tab)), '', elf)
+
+    def table(i):
+        return SEC.SymbolTableSection(_shdr(sh_type='SHT_DYNSYM' if i else 'SHT_SYMTAB', sh_offset=offs[i], sh_size=len(arrays[i]) * symsz, sh_entsize=symsz), cfg['name'], elf, strtab)
+
+    def look(t, q):
+        r = t.get_symbol_by_name(q)
+        return None if r is None else [x['st_value'] for x in r]
+    ctx.outcome('ok')
+    t1 = table(0)
+    ctx.check_eq('two-tables/first/a', look(t1, 'a'), [0x11])
+    t2 = table(1)
+    ctx.check_eq('two-tables/second/b', look(t2, 'b'), [0x21])
+    ctx.check_eq('two-tables/second/a', look(t2, 'a'), [0x22])
+    ctx.check_eq('two-tables/first/b-absent', look(t1, 'b'), None)
+    ctx.check_eq('two-tables/first-again', look(table(0), 'a'), [0x11])
+    ctx.check_eq('two-tables/second-again/absent', look(table(1), 'zz'), None)
 
 
 def h_by_name(ctx):
@@ -487,6 +514,8 @@ HARNESSES = [
       desc='SUNWSyminfoTableSection: entries 1..n in order with names from the linked symbol table'),
     H('h3_4_by_name', h_by_name, lambda tier: [dict(elfclass=c, little=l, k=3, symnames=(2 if tier == 'quick' else 3), warm=w) for c, l in ((64, True), (32, False)) for w in (False, True)], expect=('ok',),
       desc='get_symbol_by_name with symbolic st_name offsets (duplicates and suffix names arise): exactly the symbols bearing the name, None otherwise, also after the map was built by an earlier query'),
+    H('h3_4_two_tables', h_two_tables, lambda tier: [dict(elfclass=c, little=l, name=n) for c, l in ((64, True), (32, False)) for n in ('', '.symtab')], expect=('ok',), decoy=-1,
+      desc='two symbol tables of one file under the same section name: lookups by name are answered per table, in any order of questions (ground)'),
     H('h3_4_text', h_text, lambda tier: [dict(elfclass=c, little=l) for c, l in ((64, True), (32, False))], expect=('ok',), decoy=-1,
       desc='symbol names with multi-byte UTF-8 characters: enumeration and lookup by name (ground)'),
     H('h3_5_hashfn', h_hashfn, lambda tier: [dict(fn=f, n=n) for f in ('elf', 'gnu') for n in range(0, (9 if tier == 'quick' else 13))], expect=('ok',),
